@@ -1429,3 +1429,79 @@ def lazy_cache_starts_empty(chk, repo, rid, mod_prefixes, floor=1):
                 chk.ob(rid, f"{ci.node.name}.{attr} (filled lazily by {mname}) starts as None", repo.loc(init, inits[0]), ok,
                        f"{ci.node.name}.__init__ sets the cache `{attr}` to `{unparse(inits[0].value)}`: the value {mname}() would compute from the object can be bypassed by "
                        "a value computed elsewhere", key=f"{cq}::{attr}::cache-starts-empty", fn=init.qual)
+
+
+def sec_shift_before_growth(chk, repo, rid):
+    """R-ORDER: in join_miscleaved_peptides the Sec positions of node i are shifted by the length of what was joined BEFORE node i: the
+    statement that reads the running length in `.shift(<size>)` comes before the statement that adds the node's own length to it, in the
+    same block (both are executed once per node)."""
+    chk.rule(rid, 'R-ORDER: Sec positions of a node are shifted by the length joined so far, before the node\'s own length is added', 1)
+    f = repo.func('svgraph.VariantPeptideDict:MiscleavedNodes.join_miscleaved_peptides')
+    chk.uses(f)
+    shifts = [c for c in ast.walk(f.node) if isinstance(c, ast.Call) and call_name(c) == 'shift' and len(c.args) == 1 and isinstance(c.args[0], ast.Name)]
+    if not shifts:
+        chk.undecided(rid, 'Sec shift', f.where, 'no `<sec>.shift(<running length>)` found in join_miscleaved_peptides', key=f.qual + '::sec-shift-order', fn=f.qual)
+        return
+    ok = True
+    detail = ''
+    for c in shifts:
+        size = c.args[0].id
+        st = repo.enclosing_stmt(c)
+        # climb to the statement of the innermost enclosing loop body that contains the shift
+        loop = next((a for a in repo.ancestors(c) if isinstance(a, (ast.For, ast.While))), None)
+        if loop is None:
+            ok, detail = False, 'the shift is not inside the loop over the nodes'
+            continue
+        top = st
+        while repo.parent(top) is not loop and repo.parent(top) is not None:
+            top = repo.parent(top)
+        grow = [i for i, s_ in enumerate(loop.body) if isinstance(s_, ast.AugAssign) and isinstance(s_.op, ast.Add) and unparse(s_.target) == size]
+        if top not in loop.body or len(grow) != 1:
+            ok, detail = False, f"`{size} += ...` is not a single statement of the node loop next to the shift"
+            continue
+        if loop.body.index(top) > grow[0]:
+            ok, detail = False, f"`{unparse(c)}` is evaluated after `{unparse(loop.body[grow[0]])}`: the Sec positions of a node are shifted by a length that already includes the node itself"
+    chk.ob(rid, 'x.shift(size) precedes size += len(node) in the node loop', f.where, ok,
+           detail + ' (the Sec-terminated peptide is cut one node too far: it still contains U and the real truncated peptide is never produced)',
+           key=f.qual + '::sec-shift-order', fn=f.qual)
+
+
+def w2f_tail_guard(chk, repo, rid):
+    """R-AFFINE: the W>F substitution rebuilds the peptide as seq[:start] + alt + seq[end:]; the tail is skipped only when it is empty,
+    i.e. the guard of the tail append is `end < len(seq)` (any affine spelling) - not a tighter bound that drops the last residue."""
+    from sa.affine import simple_aff, Aff
+    chk.rule(rid, 'R-AFFINE: the tail of a W>F substituted peptide is appended whenever it is non-empty (guard end < len(seq))', 1)
+    f = repo.func('svgraph.VariantPeptideDict:VariantPeptideDict.translational_modification')
+    chk.uses(f)
+    seqp = [a.arg for a in f.node.args.args if a.arg != 'self']
+    sites = []
+    for n in ast.walk(f.node):
+        tests = []
+        if isinstance(n, ast.If):
+            tests = [(n.test, n.body)]
+        elif isinstance(n, ast.IfExp):
+            tests = [(n.test, [n.body])]
+        for t, body in tests:
+            if isinstance(t, ast.Compare) and len(t.ops) == 1 and isinstance(t.ops[0], (ast.Lt, ast.LtE, ast.Gt, ast.GtE)) \
+                    and any(isinstance(x, ast.Subscript) and isinstance(x.slice, ast.Slice) and x.slice.upper is None and x.slice.lower is not None
+                            and unparse(x.slice.lower).endswith('location.end') for b in body for x in ast.walk(b)):
+                sites.append(t)
+    if not sites:
+        chk.undecided(rid, 'W>F tail guard', f.where, 'no guarded `seq[<variant>.location.end:]` tail found', key=f.qual + '::tail-guard', fn=f.qual)
+        return
+    for t in sites:
+        l_, r_ = simple_aff(t.left), simple_aff(t.comparators[0])
+        op = type(t.ops[0]).__name__
+        ok = False
+        if l_ is not None and r_ is not None:
+            d = l_ - r_ if op in ('Lt', 'LtE') else r_ - l_          # d (<|<=) 0
+            strict = op in ('Lt', 'Gt')
+            ends = [k for k in d.t if k.endswith('location.end')]
+            lens = [k for k in d.t if k.startswith('len(')]
+            if len(ends) == 1 and len(lens) == 1 and d.t[ends[0]] == 1 and d.t[lens[0]] == -1 and len(d.t) == 2:
+                # end - len + c (<|<=) 0   <=>   end < len - c (+1 if <=)
+                bound = -d.c + (0 if strict else 1)          # end < len + bound
+                ok = bound == 0
+        chk.ob(rid, 'tail appended iff end < len(seq)', repo.loc(f, t), ok,
+               f"the tail of the substituted peptide is appended under `{unparse(t)}`: when the reassigned W is the second-to-last residue the last residue is dropped "
+               "(the W>F form is not a form of any peptide of the run without the option)", key=f.qual + '::tail-guard', fn=f.qual)
